@@ -73,13 +73,10 @@ def Ctx.fkb (c : Ctx) : FKB Nat Q := fun i =>
   | some p => p.2
   | none => defaultFNode
 
-def Ctx.fstate (c : Ctx) : FState Nat Q := fun i =>
-  match c.tabs.find? (·.1 == i) with
-  | some p => p.2
-  | none => []
+def Ctx.fstate (c : Ctx) : FState Nat Q := ⟨c.tabs⟩
 
 def Ctx.setFState (c : Ctx) (s : FState Nat Q) : Ctx :=
-  { c with tabs := c.fnodes.map fun p => (p.1, s p.1) }
+  { c with tabs := c.fnodes.map fun p => (p.1, s.get p.1) }
 
 def parseGr (s : String) : Option Gr :=
   if s = "-" then some [] else (s.splitOn ".").mapM (·.toNat?)
@@ -216,7 +213,7 @@ def step (c : Ctx) (line : String) : Ctx × String :=
     match id.toNat?, parseGr g, parseRat l, parseRat u with
     | some i, some g, some l, some u =>
       let s := c.fstate
-      (c.setFState (Function.update s i (Table.addData (c.fkb i).world (s i) g ⟨l, u⟩)), "ok")
+      (c.setFState (s.set i (Table.addData (c.fkb i).world (s.get i) g ⟨l, u⟩)), "ok")
     | _, _, _, _ => bad
   | ["fup", id] =>
     match id.toNat? with
@@ -238,16 +235,16 @@ def step (c : Ctx) (line : String) : Ctx × String :=
     | _, _, _, _, _ => bad
   | ["ftab", ids] =>
     match parseIds ids with
-    | some l => (c, "t " ++ " ".intercalate (l.map fun i => showTab i (c.fstate i)))
+    | some l => (c, "t " ++ " ".intercalate (l.map fun i => showTab i (c.fstate.get i)))
     | none => bad
   | ["fkeys", ids] =>
     match parseIds ids with
     | some l => (c, "g " ++ " ".intercalate (l.map fun i =>
-        s!"{i}:" ++ ";".intercalate ((sortRows (c.fstate i)).map fun r => showGr r.g)))
+        s!"{i}:" ++ ";".intercalate ((sortRows (c.fstate.get i)).map fun r => showGr r.g)))
     | none => bad
   | ["fget", id, g] =>
     match id.toNat?, parseGr g with
-    | some i, some g => (c, s!"b {showB (Table.getD (c.fkb i).world (c.fstate i) g)}")
+    | some i, some g => (c, s!"b {showB (Table.getD (c.fkb i).world (c.fstate.get i) g)}")
     | _, _ => bad
   | ["fcontra", ids] =>
     match parseIds ids with
@@ -255,7 +252,7 @@ def step (c : Ctx) (line : String) : Ctx × String :=
     | none => bad
   | ["fresetb"] =>
     let s := c.fstate
-    (c.setFState (fun i => (s i).resetBounds), "ok")
+    (c.setFState ⟨s.tabs.map fun p => (p.1, p.2.resetBounds)⟩, "ok")
   | ["state", a, l, u] =>
     match parseRat a, parseRat l, parseRat u with
     | some a, some l, some u =>
